@@ -63,7 +63,7 @@ TECHNIQUE = "Lean 4 theorems (specification equality by cases + list inductions 
 DESIGN_REF = "DESIGN.md §5 C18"
 MODULES = ["TypelibModel.Props.C18", "TypelibModel.Props.Fields"]
 TABLES = False
-RULE = ("dict / OrderedDict / MappingProxyType / custom Mapping / dict subclass; instances of dataclasses (plain, slots, frozen, with "
+RULE = ("dict / OrderedDict / MappingProxyType / custom Mapping / a class registered with Mapping.register / dict subclass; instances of dataclasses (plain, slots, frozen, with "
         "ClassVar / InitVar / kw_only), NamedTuples (incl. first field 'ab' or (1, 2)) and collections.namedtuple, TypedDict "
         "instances, annotated plain classes with private and ClassVar attributes, annotated __slots__ classes; generated classes "
         "without annotations: slots-only (1-4 slots, at least one public, private slots set or unset, assigned in any order) and "
@@ -346,6 +346,45 @@ class CustomMapping(collections.abc.Mapping):
         return len(self._d)
 
 
+class RegisteredMapping:
+    """a mapping by protocol and by registration only (persistent / C-extension maps): no Mapping, no dict in its MRO"""
+
+    def __init__(self, d):
+        self._d = d
+
+    def __getitem__(self, k):
+        return self._d[k]
+
+    def __iter__(self):
+        return iter(self._d)
+
+    def __len__(self):
+        return len(self._d)
+
+    def __contains__(self, k):
+        return k in self._d
+
+    def keys(self):
+        return self._d.keys()
+
+    def values(self):
+        return self._d.values()
+
+    def items(self):
+        return self._d.items()
+
+    def get(self, k, default=None):
+        return self._d.get(k, default)
+
+    def __eq__(self, other):
+        return isinstance(other, RegisteredMapping) and self._d == other._d
+
+    __hash__ = None
+
+
+collections.abc.Mapping.register(RegisteredMapping)
+
+
 class DictSubclass(dict):
     pass
 
@@ -463,7 +502,7 @@ def _gen(xs):
 # wrap name -> (tag of the Val it wraps, constructor)
 WRAPS = {
     "OrderedDict": ("d", collections.OrderedDict), "MappingProxyType": ("d", types.MappingProxyType),
-    "CustomMapping": ("d", CustomMapping), "DictSubclass": ("d", DictSubclass),
+    "CustomMapping": ("d", CustomMapping), "DictSubclass": ("d", DictSubclass), "RegisteredMapping": ("d", RegisteredMapping),
     "generator": ("it", lambda it: _gen(list(it))), "CustomIter": ("it", CustomIter), "SizedIter": ("it", SizedIter),
     "map": ("it", lambda it: map(lambda e: e, list(it))), "tee": ("it", lambda it: itertools.tee(it)[0]),
     "ListSubclass": ("l", ListSubclass), "CustomSeq": ("l", CustomSeq), "CustomIterable": ("l", CustomIterable),
